@@ -1,11 +1,12 @@
 import Driver.Codec
 import Driver.C06
+import Driver.C09
 import Driver.C10
 import Driver.C15
 import Driver.C16
 open Lean Nutree Driver
 
-def handlers : List (St → String → Json → Option (E Json)) := [handleC06, handleC10, handleC15, handleC16]
+def handlers : List (St → String → Json → Option (E Json)) := [handleC06, handleC09, handleC10, handleC15, handleC16]
 
 def dispatch (st : St) (j : Json) : St × Json :=
   match j.getObjVal? "op" >>= Json.getStr? with
